@@ -376,6 +376,12 @@ class Ctx:
             self.inconclusive.append("%s shard hit the wall-clock watchdog at case %s" % (label, res["last"]))
             self.violation_or_inconclusive_timeout(label, res, rcmd)
             return
+        dl = [ln for ln in res["err"].splitlines() if ln.startswith("SCHED-DEADLOCK")]
+        if dl:
+            ops = sorted(set(re.findall(r"\[T\d+ ([a-z-]+)[^\]]* in (\w+)\]", dl[0])))
+            key = "deadlock|%s|%s" % (label, ",".join("%s@%s" % (st, op) for st, op in ops))
+            self.violation(key, dl[0], {"argv": rcmd, "exit": res["rc"]})
+            return
         if reports:
             for key, excerpt in reports:
                 self.violation(key, excerpt, {"argv": rcmd, "exit": res["rc"]})
